@@ -288,7 +288,10 @@ func (rb *RingBuffer) DiscardStride(stride uint64) (err error) {
 	if newRp%stride > 0 {
 		newRp -= newRp % stride
 	}
-	rb.desc.readPointer = newRp
+	// Never move the read pointer backwards: bytes already consumed must not be returned again.
+	if newRp > rb.desc.readPointer {
+		rb.desc.readPointer = newRp
+	}
 	return nil
 }
 
